@@ -222,6 +222,48 @@ func c02Exec(raw json.RawMessage, hist []string, deep bool) *bfsResult {
 	if mu, smu := w.S.VerifTryLocks(); !mu || !smu {
 		res.fail("lock-held", hist)
 	}
+	// long downtime: the server is stopped, the clock moves more than a window past the offset, the server starts
+	// again (loading the saved reports, then catching up with rotations). What gets published for the week the
+	// reports fell in must still follow the rule.
+	w.setNow(base + c02Now + 4100)
+	if err := w.Restart(); err != nil {
+		res.fail("restart-after-downtime-fails", err.Error())
+		poisoned = true
+		return res
+	}
+	w.M.restartVolatile()
+	for i := 0; i < 4 && w.M.Offset < w.S.VerifSnapshot().ReportsOffset; i++ {
+		w.M.rotate()
+	}
+	if sig, what := w.compareState(); sig != "" {
+		res.fail("after-downtime/"+sig+"/after-"+last, what)
+		return res
+	}
+	if sig, what := w.checkPublic(w.M); sig != "" {
+		res.fail("after-downtime/"+sig+"/after-"+last, what)
+		return res
+	}
+	code, st, _ := w.stats(fmt.Sprint(base))
+	if code != 200 {
+		res.fail("after-downtime/archived-week-not-served", code)
+		return res
+	}
+	for sk, set := range sets {
+		var dn string
+		var slot int
+		fmt.Sscanf(strings.Replace(sk, "/", " ", 1), "%s %d", &dn, &slot)
+		d := devs[dn]
+		want := c02Expected(set, d.limit)
+		idx := c02Now + slot
+		if idx < 0 || idx >= mWeek {
+			continue
+		}
+		for _, dev := range st.Devices {
+			if dev.PublicKey == d.k.Pub && uint64(dev.PowerOutputs[idx]) != want {
+				res.fail("after-downtime/published-value-differs-from-rule/after-"+last, map[string]interface{}{"slot": sk, "published": dev.PowerOutputs[idx], "rule": want})
+			}
+		}
+	}
 	return res
 }
 
